@@ -410,8 +410,9 @@ def oracle_record(r):
     return None
 
 
-def observe_pair(master, a, b, out_name, workdir, tag):
-    """create_polyglot on copies of two corpus files, in a scratch cwd with bystanders"""
+def observe_pair(master, a, b, out_name, workdir, tag, pre_bytes=None):
+    """create_polyglot on copies of two corpus files, in a scratch cwd with bystanders; with pre_bytes the
+    output path already holds a file (an earlier output) when the call is made"""
     import fickling.polyglot as poly
     d = os.path.join(workdir, tag)
     cwdp = os.path.join(d, "cwd")
@@ -426,6 +427,10 @@ def observe_pair(master, a, b, out_name, workdir, tag):
         if ent["k"] != "missing":
             shutil.copyfile(os.path.join(master, ent["id"]), os.path.join(d, sub, ent["name"]))
         rels.append(rel)
+    pre_out = None
+    if pre_bytes is not None and out_name is not None:
+        open(os.path.join(cwdp, out_name), "wb").write(pre_bytes)
+        pre_out = os.path.join("cwd", out_name)
     ptmp = private_tmp(d)
     before = listing(d)
     cwd = os.getcwd()
@@ -441,6 +446,9 @@ def observe_pair(master, a, b, out_name, workdir, tag):
     after = listing(d)
     new = sorted(p for p in after if p not in before)
     out_formats = None
+    if pre_out is not None:
+        (s, f), _ = call_quiet(poly.identify_pytorch_file_format, os.path.join(d, pre_out))
+        out_formats = [s, f]
     for p in new:
         full = os.path.join(d, p)
         if os.path.isfile(full) and os.path.dirname(p) == "cwd" and not os.path.basename(p).startswith("temp_"):
@@ -448,7 +456,7 @@ def observe_pair(master, a, b, out_name, workdir, tag):
             out_formats = [s, f]
     return {"tag": tag, "a": a["id"], "b": b["id"], "rels": rels, "out": out_name,
             "status": st, "value": val if st == "raised" else bool(val), "stdout": out[-300:],
-            "before": before, "after": after, "new": new, "out_formats": out_formats, "dir": d}
+            "before": before, "after": after, "new": new, "out_formats": out_formats, "dir": d, "pre_out": pre_out}
 
 
 # ---------------------------------------------------------------- model-free oracle
@@ -491,14 +499,21 @@ def oracle_identify(o):
 def oracle_pair(o):
     """C17 on one create_polyglot observation"""
     before, after = o["before"], o["after"]
+    pre = o.get("pre_out")            # the output path held an earlier output: it is REPLACED by a successful call
     for p, h in before.items():
+        if p == pre:
+            continue
         if p not in after:
             return f"{p} was removed"
         if after[p] != h:
             return f"{p} was modified"
     new = [p for p in after if p not in before]
     ok_new = []
-    if o["status"] == "ok" and o["value"] is True:
+    if o["status"] == "ok" and o["value"] is True and pre:
+        if pre not in after:
+            return f"polyglot reported but the output path {pre} does not exist"
+        ok_new = [pre]
+    elif o["status"] == "ok" and o["value"] is True:
         ok_new = [p for p in new if os.path.dirname(p) == "cwd" and not os.path.basename(p).startswith("temp")]
         if len(ok_new) != 1:
             return f"polyglot reported but new paths are {new}"
@@ -553,6 +568,23 @@ def run(job):
     for k, (a, b) in enumerate(pairs):
         out_name = rng.choice([None, None, "out_polyglot.bin"])
         res["pairs"].append(observe_pair(master, a, b, out_name, os.path.join(scratch, "pairs"), f"p{k}"))
+    # history: every successful construction once more, into an output path that already holds the output of
+    # ANOTHER construction (or, for the first one, a plain zip): the new output replaces it
+    res["pairs_pre"] = []
+    prev, prev_ids = None, None
+    plain = next((os.path.join(master, e["id"]) for e in corpus if e["k"] == "torch_save" and not e.get("legacy")), None)
+    for k, ((a, b), o) in enumerate(zip(pairs, res["pairs"])):
+        if not (o["status"] == "ok" and o["value"] is True):
+            continue
+        outs = [p for p in o["new"] if os.path.dirname(p) == "cwd" and not os.path.basename(p).startswith("temp")]
+        cur = open(os.path.join(o["dir"], outs[0]), "rb").read() if len(outs) == 1 else None
+        pre = prev if prev is not None else (open(plain, "rb").read() if plain else b"PK\x03\x04junk")
+        o2 = observe_pair(master, a, b, "out_polyglot.bin", os.path.join(scratch, "pairs"), f"q{k}", pre_bytes=pre)
+        o2["pre_of"] = k
+        o2["pre_pair"] = prev_ids          # ids of the pair whose output was at the output path (None: a plain zip)
+        res["pairs_pre"].append(o2)
+        if cur is not None:
+            prev, prev_ids = cur, [a["id"], b["id"]]
     return res
 
 
@@ -581,7 +613,25 @@ def run_case(job):
         if sp["k"] != "missing":
             build(sp, os.path.join(master, ent["id"]))
         ents.append(ent)
-    o = observe_pair(master, ents[0], ents[1], case.get("out"), os.path.join(scratch, "pairs"), "replay")
+    pre_bytes = None
+    if case.get("pre") is not None:
+        if case["pre"]:                 # the output of another construction
+            pents = []
+            for i, sp in enumerate(case["pre"]):
+                ent = dict(sp)
+                ent["id"] = f"g{i}"
+                if sp["k"] != "missing":
+                    build(sp, os.path.join(master, ent["id"]))
+                pents.append(ent)
+            o0 = observe_pair(master, pents[0], pents[1], "out_polyglot.bin", os.path.join(scratch, "pairs"), "pre")
+            outs = [p for p in o0["new"] if os.path.dirname(p) == "cwd" and not os.path.basename(p).startswith("temp")]
+            pre_bytes = open(os.path.join(o0["dir"], outs[0]), "rb").read() if len(outs) == 1 else b""
+        else:                           # a plain torch.save zip
+            pp = os.path.join(master, "plain")
+            build({"k": "torch_save", "obj": "dict", "legacy": False, "name": "plain.pt"}, pp)
+            pre_bytes = open(pp, "rb").read()
+    o = observe_pair(master, ents[0], ents[1], case.get("out"), os.path.join(scratch, "pairs"), "replay",
+                     pre_bytes=pre_bytes)
     o["combined"] = case.get("combined")
     return {"why": oracle_pair(o), "obs": o}
 
